@@ -21,6 +21,8 @@ def run(ctx):
     fz.beta_tracks_residual(ctx)
     fz.resumed_at_own_dimension(ctx, BASE)
     fz.subdiagonal_on_breakdown(ctx)
+    fz.residual_checked_against_basis(ctx)
+    fz.thresholds_homogeneous(ctx)
     eigsbase.flag_freshness(ctx, BASE)
     eigsbase.ritz_data_of_current_call(ctx, BASE)
     eigsbase.coherent_permutation(ctx, BASE)
